@@ -82,7 +82,7 @@ def site_roundtrip(run, p, seed):
     bad = []
     S = p["S"]
     els = [S["t_el"][t] for t in S["typ"]]
-    A = run.rng.choice(sorted(set(els)))
+    A = run.rng.choice(sorted(set(els) - {"Rn"}))       # Rn bystanders are stored outside the box: outside the search's domain (atoms inside the cell)
     B = "Hf"
     sa = RG.mk_state([A], [(0, 0, 0)], None, run.rng, "a", False, xlabels=())
     sb = RG.mk_state([B], [(0, 0, 0)], None, run.rng, "b", False, xlabels=())
